@@ -64,7 +64,7 @@ LEVEL_NOTE = ('Trusted: NumPy, scipy.optimize (Nelder-Mead inside the sup '
               'product (pinned by C02) from which the reference weights are '
               'read. Real spaces only; convex parameter choices only.')
 DESIGN_REF = 'DESIGN.md section 5, C08'
-BUDGET = {'quick': 2400, 'thorough': 60000}
+BUDGET = {'quick': 6000, 'thorough': 80000}
 K_TOL = 512
 TOLERANCES = {
     'fenchel_young': 'f(x)+f*(y) >= <x,y> - 512*eps*n*(1+|f|+|f*|+sum '
@@ -130,7 +130,8 @@ def _strategy(draw, tier):
                                 ['matrix', 'product']))
     dtypes = ('float64',) * 7 + ('float32',)
     if pick == 'flat':
-        sd = draw(Z.flat_space_descs(max_size=6, dtypes=dtypes))
+        sd = draw(Z.flat_space_descs(
+            max_size=6 if tier == 'quick' else 9, dtypes=dtypes))
     elif pick == 'power':
         sd = draw(Z.power_space_descs())
     elif pick == 'matrix':
@@ -213,6 +214,19 @@ def run_case(desc):
         B = Z.build_func(space, sd, fd)
     except Z.Rejected as e:
         return Outcome('rejected', strata=['rejected:' + str(e)[:30]])
+    except Z.BuildCrash as bc:
+        from vlib import core
+        part = bc.built
+        kr = known_region(part)
+        if kr is not None and not desc.get('probe_known', False):
+            return Outcome('excluded', strata=['excluded:' + kr])
+        where, csig = core.crash_signature(PROPERTY, bc.exc)
+        region = 'w=' + Z.wcoarse(part.sd)
+        if part.region_str():
+            region += ',' + part.region_str()
+        raise Violation('C08|crash|{}|{}|{}'.format(
+            type(part.f).__name__, region, csig.split('|', 2)[2]),
+            'constructing the derived functional failed: ' + str(bc)[:300])
     n = B.geo.n
     xraw = np.asarray(desc['x'], float) * desc['xscale']
     yraw = np.asarray(desc['y'], float) * desc['yscale']
@@ -748,6 +762,12 @@ def _check_node(B, pts, top, fd, ctx, probe=True):
                     raise Violation(sig('moreau'),
                                     'proximal result not in the space')
                 a, b = flat.flat(p1, space), flat.flat(p2, space)
+                if not (np.all(np.isfinite(a)) and np.all(np.isfinite(b))):
+                    # overflow inside a proximal (e.g. exp in float32) is
+                    # C07's business, the identity cannot be judged
+                    note('moreau_nonfinite_prox')
+                    a = None
+            if p1 is not None and a is not None:
                 r = a + sigma * b - xf
                 res = np.finfo(np.float32 if f32 else np.float64).resolution
                 t = (256 * eps + 40 * res) * (
